@@ -227,6 +227,12 @@ THEOREMS = [
      "h2_head_ok H1_MAX_HEAD authority m t h = false /\\ h2_head_ok H2_MAX_HEADER_LIST authority m t h = true /\\ "
      "run_head_gen H1_MAX_HEAD (XL [XL []; XL [XB m; XB t; x_headers h; XB []]]) = XL [XL [XN 200]; XL [XN 431]] /\\ "
      "run_head (XL [XL []; XL [XB m; XB t; x_headers h; XB []]]) = XL [XL [XN 200]; XL [XN 200]]"),
+    ("reset_stream_is_its_own", "forall qs : list h2req, h2_answered true qs = h2_reset_spec qs"),
+    ("reset_limited_stream_v0_refuted",
+     "exists qs : list h2req, map hq_reset qs = [false; false; false; false; true; false] /\\ "
+     "h2_answered false qs = ([(7, 429)], false) /\\ "
+     "h2_answered true qs = ([(1, 200); (3, 200); (5, 200); (7, 429); (11, 429)], true) /\\ "
+     "h2_reset_spec qs = ([(1, 200); (3, 200); (5, 200); (7, 429); (11, 429)], true)"),
     ("bodiless_status_answer",
      _SEND + " (p : proto) (secure : bool) (alt : option bytes) (m : N) (path_ok : bool) (r w : resp), "
      "ends_with_head (rs_status r) = true -> "
@@ -1316,19 +1322,60 @@ def gen_heads(rng, n):
     return cases
 
 
+# ---- streams the client has reset, frames written by hand (proto.rst) ----
+RST_PAGES = [(b"/p", 200), (b"/missing", 404), (b"/f.txt", 200), (b"/nc", 204), (b"/st1", 200)]
+
+
+def rst_case(limit, reqs, statuses, resets, kind):
+    slow = [(b"/slow0", b"slow page ", 0), (b"/slow1", b"another slow page ", 2)]
+    cfg = host_cfg(False, [], slow=slow, limit=limit)
+    vs = [xl(xbool(limit is not None and i >= limit), xn(st)) for i, st in enumerate(statuses)]
+    x = xl(cfg, xlist([x_req(r) for r in reqs]), xlist([xn(i) for i in resets]), xlist(vs))
+    return Case("proto.rst", x, "proto.rst_spec", {"kind": kind, "streams": len(reqs), "reset": len(resets),
+                                                   "reset_and_limited": sum(1 for i in resets if limit is not None and i >= limit)})
+
+
+def gen_rsts(rng, n):
+    """proto.rst: a batch of requests and RST_STREAMs for some of them in ONE write on a hand-written HTTP/2 connection: the
+    server's accept loop meets streams the client has already reset - among them streams the host's limiter answers (429)"""
+    def slow_req(d):
+        return R(b"GET", rng.choice([b"/slow0", b"/slow1"]), [(b"x-delay", b"%d" % d)])
+    # the witness of reset_limited_stream_v0_refuted: 3 streams pass (handlers sleeping 200 ms), 3 are answered 429, the 5th is reset
+    cases = [rst_case(3, [slow_req(200) for _ in range(6)], [200] * 6, [4], "reset-directed"),
+             rst_case(3, [slow_req(200) for _ in range(6)], [200] * 6, [3, 5], "reset-directed"),
+             rst_case(3, [slow_req(150) for _ in range(6)], [200] * 6, [1], "reset-directed"),
+             rst_case(None, [slow_req(100) for _ in range(6)], [200] * 6, [0, 4], "reset-directed"),
+             rst_case(2, [slow_req(100), R(b"GET", b"/p"), R(b"HEAD", b"/p"), R(b"GET", b"/missing")], [200, 200, 200, 404], [2], "reset-directed")]
+    for _ in range(n):
+        limit = rng.choice([None, 2, 3, 5, 8])
+        k = rng.randrange(2, 3 * limit + 1) if limit else rng.randrange(2, 20)    # (beyond 3 * limit the limiter drops the connection)
+        reqs, sts = [], []
+        for i in range(k):
+            if rng.random() < 0.6:
+                reqs.append(slow_req(rng.choice([0, 20, 80, 150, 250])))
+                sts.append(200)
+            else:
+                t, st = rng.choice(RST_PAGES)
+                reqs.append(R(rng.choice([b"GET", b"GET", b"HEAD"]), t))
+                sts.append(st)
+        resets = sorted(rng.sample(range(k), rng.randrange(0, min(k, 4) + 1)))
+        cases.append(rst_case(limit, reqs, sts, resets, "reset"))
+    return cases
+
+
 def generate(rng, tier):
     if tier == "thorough":
         cases = (gen_pairs(rng, 1500, n_limited=40, big=(1, 2, 1, 2)) + gen_servers(rng, 40) + gen_mini(rng, 100) + gen_answered(rng, 150)
-                 + gen_bodies(rng, 300) + gen_sbodies(rng, 150) + gen_heads(rng, 200)
+                 + gen_bodies(rng, 300) + gen_sbodies(rng, 150) + gen_heads(rng, 200) + gen_rsts(rng, 200)
                  + gen_bursts(rng, [2, 3, 4, 6, 8, 12, 16, 24, 32] * 14 + [32] * 6 + [64, 100] * 6))
     else:
         cases = (gen_pairs(rng, 40, n_limited=2, big=(1, 2)) + gen_servers(rng, 6) + gen_mini(rng, 16) + gen_answered(rng, 6)
-                 + gen_bodies(rng, 14) + gen_sbodies(rng, 8) + gen_heads(rng, 10) + gen_bursts(rng, [2, 3, 5, 9, 16, 32, 100]))
+                 + gen_bodies(rng, 14) + gen_sbodies(rng, 8) + gen_heads(rng, 10) + gen_rsts(rng, 12) + gen_bursts(rng, [2, 3, 5, 9, 16, 32, 100]))
     return cases
 
 
 def directed(rng, mismatches):
-    return (gen_pairs(rng, 100, "directed", n_limited=6, big=()) + gen_bodies(rng, 60) + gen_heads(rng, 40)
+    return (gen_pairs(rng, 100, "directed", n_limited=6, big=()) + gen_bodies(rng, 60) + gen_heads(rng, 40) + gen_rsts(rng, 40)
             + [c for c in gen_bursts(rng, [4, 8, 16, 32, 32, 12], "directed-burst") if c.spec])
 
 
@@ -1392,6 +1439,20 @@ def spec_ok(c, i, s):
     except Exception:
         return False
     if c.comp == "proto.answered":
+        return iv == sv
+    if c.comp == "proto.rst":
+        if iv != sv:
+            try:
+                got = [(a[1][0][1], a[1][1][1]) for a in iv[1][0][1]]
+                want = [(a[1][0][1], a[1][1][1]) for a in sv[1][0][1]]
+                resets = [2 * r[1] + 1 for r in c.x[1][2][1]]
+                lim = [2 * i + 1 for i, v in enumerate(c.x[1][3][1]) if v[1][0] == ("N", 1)]
+                c.meta["why"] = ("%d requests as streams %s of one HTTP/2 connection, the client resets stream(s) %s in the same write (the host's limiter "
+                                 "answers streams %s): answered (stream, status) %r, connection %s afterwards; every stream that was not reset has to be "
+                                 "answered: %r" % (len(c.x[1][1][1]), [2 * i + 1 for i in range(len(c.x[1][1][1]))], resets, lim, got,
+                                                   "alive" if iv[1][1] == ("N", 1) else "ENDED", want))[:1500]
+            except Exception:
+                pass
         return iv == sv
     if c.comp == "proto.head":
         # (L (N 96)): the HTTP/1 front end does not accept this head - not a request both protocols can express, no claim
@@ -1610,6 +1671,9 @@ def extra_coverage(cases, impl, model, spec):
             "answers_that_end_the_http1_connection": sum((impl.get(c.id) or "").count("(L (N 5) (L (N 1") for c in cases),
             "exchanges_on_paths_with_vary_rules": sum(1 for c in pairs for e in c.x[1][5][1] if len(e[1]) > 6 and len(e[1][6][1]) > 2 and e[1][6][1][2][1]),
             "request_body_reads_(proto.body)": len([c for c in cases if c.comp == "proto.body"]),
+            "batches_with_reset_streams_(proto.rst)": len([c for c in cases if c.comp == "proto.rst"]),
+            "streams_reset_by_the_client_in_them": sum(c.meta.get("reset", 0) for c in cases if c.comp == "proto.rst"),
+            "of_which_answered_by_the_limiter": sum(c.meta.get("reset_and_limited", 0) for c in cases if c.comp == "proto.rst"),
             "request_heads_at_the_front_end_limits_(proto.head)": len([c for c in cases if c.comp == "proto.head"]),
             "of_which_beyond_the_http1_head_limit": len([c for c in cases if c.comp == "proto.head" and c.meta.get("h1_head", 0) > H1_MAX_HEAD]),
             "requests_with_100+_header_fields_through_both_protocols": sum(1 for c in pairs for r in c.x[1][1][1][1][1] if len(r[1][2][1]) >= 100),
